@@ -72,6 +72,7 @@ Fresh(cfg) ==
                        \* factorization behind (outside the domain of every property: the caller was told)
      inited |-> FALSE, \* a successful init() has completed and no fault hit the object since
      ncomp |-> 0,      \* compute() calls started since the last init()
+     probing |-> FALSE, \* complex-shift solver only: inside the post-processing that applies the operator at a probe shift
      calls |-> 0,
      exc |-> "none"]   \* exception delivered to the caller by the last call: none | invalid | fault
 
@@ -192,7 +193,7 @@ G_CompressV(st, kk) == st.pc = "c_shift" /\ st.spos = st.ncv /\ kk = st.k /\ kk 
 U_CompressV(st, kk) == [st EXCEPT !.pc = "c_fac"]
 
 \* sort_ritzpair (an unsupported sorting rule throws before or inside it)
-G_SortBegin(st) == st.pc = "c_sort"
+G_SortBegin(st) == st.pc = "c_sort" /\ ~st.probing
 U_SortBegin(st) == [st EXCEPT !.pc = "c_sorting"]
 G_SortEnd(st) == st.pc = "c_sorting"
 U_SortEnd(st) == [st EXCEPT !.pc = "c_end"]
@@ -209,9 +210,16 @@ U_ComputeEnd(st, r, inf, ni, o) == [st EXCEPT !.pc = "idle", !.info = inf, !.nit
 
 \* The user's operator throws: possible wherever the next event applies the operator.
 \* The exception unwinds to the caller; members keep whatever was written so far.
-G_OpThrows(st) == (st.pc = "init" /\ ~st.facOK) \/ st.fnext # 0
+G_OpThrows(st) == (st.pc = "init" /\ ~st.facOK) \/ st.fnext # 0 \/ st.probing
 U_OpThrows(st) ==
-    [st EXCEPT !.pc = "idle", !.exc = "fault", !.fnext = 0, !.fto = 0, !.facOK = FALSE, !.inited = FALSE]
+    [st EXCEPT !.pc = "idle", !.exc = "fault", !.fnext = 0, !.fto = 0, !.facOK = FALSE, !.inited = FALSE, !.probing = FALSE]
+
+\* GenEigsComplexShiftSolver::sort_ritzpair: 2*nev solves at a probe shift between the restart loop and the final sort
+G_ProbeBegin(st) == st.pc = "c_sort" /\ ~st.probing
+U_ProbeBegin(st) == [st EXCEPT !.probing = TRUE]
+G_ProbeStep(st) == st.pc = "c_sort" /\ st.probing
+G_ProbeEnd(st) == st.pc = "c_sort" /\ st.probing
+U_ProbeEnd(st) == [st EXCEPT !.probing = FALSE]
 
 (***************************************************************************)
 (* Design-level next-state relation: all arguments chosen nondeterministically *)
